@@ -20,9 +20,9 @@ type decodeCase struct {
 
 var subC04 = core.NewSub("C04/decode", func(w *core.Worker, c decodeCase) *core.Fail {
 	in, full := withSlack(c.In)
-	prior := alpha.MakePoint(ref.Mul(big.NewInt(5), ref.Base()), 6)
+	prior := observe(alpha.MakePoint(ref.Mul(big.NewInt(5), ref.Base()), 6))
 	priorRaw := alpha.PointRaw(prior)
-	v := new(edwards25519.Point).Set(prior)
+	v := observe(new(edwards25519.Point).Set(prior))
 	ret, err := v.SetBytes(in)
 	_ = full // input and receiver atomicity are C14's business
 	want, ok := ref.Decode(c.In)
@@ -127,10 +127,13 @@ func decodeAlphabet(ctx *core.Ctx) []decodeCase {
 }
 
 func runC04(ctx *core.Ctx) {
-	ctx.Rule("all y in [0,2^14|2^16) x sign bit; all y in [2^255-2^12,2^255) x sign bit (contains every non-canonical residue); complete one-byte deviation balls (32x256) around the encodings of alphabet P, all-00, all-ff, p-1, p; all lengths 0..130 with four fillings. Oracle: Euler criterion + ModSqrt in math/big. distinct_nontrivial = distinct decoded points")
+	ctx.Rule("all y in [0,2^14|2^16) x sign bit; all y in [2^255-2^12,2^255) x sign bit (contains every non-canonical residue); complete one-byte deviation balls (32x256) around the encodings of alphabet P, all-00, all-ff, p-1, p; all lengths 0..130 with four fillings; every alphabet encoding decoded into receivers holding a different point whose representation shares a stored coordinate (or two) with the decoded point. Oracle: Euler criterion + ModSqrt in math/big. distinct_nontrivial = distinct decoded points")
 	ctx.Assume("math/big is correct", "strings outside the enumerated sets are not decided")
 	cases := decodeAlphabet(ctx)
 	subC04.RunList(ctx, cases)
+	// decode every alphabet encoding into receivers that hold a DIFFERENT point
+	// whose representation shares stored coordinates with the decoded one
+	subC04Related.RunList(ctx, relatedCases(smoke(ctx), "Decode", false))
 	ctx.Extra("noncanonical_inputs_accepted", ctx.DistinctCount("noncanonical-accepted"))
 	if ctx.DistinctCount("accept") != 2 || ctx.DistinctCount("noncanonical-accepted") < 20 {
 		ctx.Vacuous("C04: vacuous coverage")
@@ -153,9 +156,9 @@ var subC13 = core.NewSub("C13/import", func(w *core.Worker, c quadCase) *core.Fa
 	}
 	e0 := e
 	valid := ref.ExtendedValid(v[0], v[1], v[2], v[3])
-	prior := alpha.MakePoint(ref.Mul(big.NewInt(5), ref.Base()), 6)
+	prior := observe(alpha.MakePoint(ref.Mul(big.NewInt(5), ref.Base()), 6))
 	priorRaw := alpha.PointRaw(prior)
-	p := new(edwards25519.Point).Set(prior)
+	p := observe(new(edwards25519.Point).Set(prior))
 	ret, err := p.SetExtendedCoordinates(&e[0], &e[1], &e[2], &e[3])
 	_ = e0 // arguments and receiver atomicity are C14's business
 	if v[2].Sign() == 0 {
@@ -319,6 +322,7 @@ func runC13(ctx *core.Ctx) {
 	all := pointIns(smoke(ctx), []int{0, 1, 2, 3, 4, 5, 6, 7})
 	nv := len(viaForms)
 	subC13Export.Run(ctx, len(all)*nv, func(i int) ptEncCase { return ptEncCase{all[i/nv], viaForms[i%nv]} })
+	subC13Export.RunList(ctx, zsparseCases(smoke(ctx)))
 	ctx.Extra("z_zero_quadruples_seen", ctx.DistinctCount("z-zero") > 0)
 	if ctx.DistinctCount("accept") != 2 || ctx.DistinctCount("z-zero") == 0 {
 		ctx.Vacuous("C13: vacuous coverage")
@@ -388,11 +392,13 @@ var subC17X = core.NewSub("C17/x25519", func(w *core.Worker, c x25519Case) *core
 func init() { register("C17", "exploration", runC17) }
 
 func runC17(ctx *core.Ctx) {
-	ctx.Rule("every point of alphabet P (incl. identity, (0,-1) and all of E[8]) in 8 injected and 11 operation-produced representations -> u=(1+y)/(1-y) with 1/0=0, canonical LE, equal for P and -P; X25519 cross-check against crypto/ecdh for a structured key alphabet (one-byte balls of bytes 0 and 31, scalar alphabet encodings). distinct_nontrivial = distinct u outputs")
+	ctx.Rule("every point of alphabet P (incl. identity, (0,-1) and all of E[8]) in 8 injected and 11 operation-produced representations -> u=(1+y)/(1-y) with 1/0=0, canonical LE, equal for P and -P; every point with Z stored as each of 62 sparse limb patterns; two-step sequences u(P);u(Q);u(P) over representations that share stored coordinates; X25519 cross-check against crypto/ecdh for a structured key alphabet (one-byte balls of bytes 0 and 31, scalar alphabet encodings). distinct_nontrivial = distinct u outputs")
 	ctx.Assume("math/big is correct", "crypto/ecdh X25519 is an independent correct implementation")
 	all := pointIns(smoke(ctx), []int{0, 1, 2, 3, 4, 5, 6, 7})
 	nv := len(viaForms)
 	subC17.Run(ctx, len(all)*nv, func(i int) ptEncCase { return ptEncCase{all[i/nv], viaForms[i%nv]} })
+	subC17.RunList(ctx, zsparseCases(smoke(ctx)))
+	subC17Related.RunList(ctx, relatedCases(smoke(ctx), "BytesMontgomery", true))
 	var ks []x25519Case
 	g := ref.LE32(alpha.GenericScalar)
 	for _, base := range [][]byte{g[:], bytes.Repeat([]byte{0xff}, 32), make([]byte, 32)} {
